@@ -208,32 +208,33 @@ def isCancelledGet : Req × Rsp → Bool
   | (.get _ _ _ _ _, .err c) => c == ccResCanceled
   | _ => false
 
-/-- `t` is a sequence of exchanges in which every cancelled Get is immediately followed by a
-Reserve for store `s'` -/
-inductive Renewing (s' : Store) : List (Req × Rsp) → Prop
-  | nil : Renewing s' []
-  | one (e : Req × Rsp) (rest : List (Req × Rsp)) : isCancelledGet e = false → Renewing s' rest → Renewing s' (e :: rest)
-  | renew (e : Req × Rsp) (a : Rsp) (rest : List (Req × Rsp)) : isCancelledGet e = true → Renewing s' rest →
-      Renewing s' (e :: (.reserve s', a) :: rest)
+/-- `t` is a sequence of exchanges, all of them requests to store `s`, in which every cancelled Get
+is immediately followed by a Reserve for store `s'` -/
+inductive Renewing (s s' : Store) : List (Req × Rsp) → Prop
+  | nil : Renewing s s' []
+  | one (e : Req × Rsp) (rest : List (Req × Rsp)) : isCancelledGet e = false → e.1.store? = some s →
+      Renewing s s' rest → Renewing s s' (e :: rest)
+  | renew (e : Req × Rsp) (a : Rsp) (rest : List (Req × Rsp)) : isCancelledGet e = true → e.1.store? = some s →
+      Renewing s s' rest → Renewing s s' (e :: (.reserve s', a) :: rest)
 
-theorem Renewing.append {s' : Store} {a b : List (Req × Rsp)} (ha : Renewing s' a) (hb : Renewing s' b) :
-    Renewing s' (a ++ b) := by
+theorem Renewing.append {s s' : Store} {a b : List (Req × Rsp)} (ha : Renewing s s' a) (hb : Renewing s s' b) :
+    Renewing s s' (a ++ b) := by
   induction ha with
   | nil => simpa using hb
-  | one e rest h _ ih => exact Renewing.one e _ h ih
-  | renew e a rest h _ ih => exact Renewing.renew e a _ h ih
+  | one e rest h hs _ ih => exact Renewing.one e _ h hs ih
+  | renew e a rest h hs _ ih => exact Renewing.renew e a _ h hs ih
 
 /-- index form: the exchange after a cancelled Get exists and is the Reserve of store `s'` -/
-theorem Renewing.next {s' : Store} {t : List (Req × Rsp)} (h : Renewing s' t) :
+theorem Renewing.next {s s' : Store} {t : List (Req × Rsp)} (h : Renewing s s' t) :
     ∀ i e, t[i]? = some e → isCancelledGet e = true → ∃ a, t[i + 1]? = some (.reserve s', a) := by
   induction h with
   | nil => intro i e h; simp at h
-  | one e0 rest h0 _ ih =>
+  | one e0 rest h0 _ _ ih =>
     intro i e he hc
     cases i with
     | zero => simp at he; subst he; rw [h0] at hc; cases hc
     | succ i => simp at he; simpa using ih i e he hc
-  | renew e0 a rest h0 _ ih =>
+  | renew e0 a rest h0 _ _ ih =>
     intro i e he hc
     cases i with
     | zero => exact ⟨a, by simp⟩
@@ -242,13 +243,32 @@ theorem Renewing.next {s' : Store} {t : List (Req × Rsp)} (h : Renewing s' t) :
       | zero => simp at he; subst he; simp [isCancelledGet] at hc
       | succ i => simp at he; simpa using ih i e he hc
 
-/-- `b` continues the trace of `a` by exchanges in which cancelled Gets are renewed with `s'` -/
-def Ext {σ : Type} (s' : Store) (a b : σ × List (Req × Rsp)) : Prop := ∃ ext, b.2 = a.2 ++ ext ∧ Renewing s' ext
+/-- when renewals go to the store being read, every request of the trace is one to that store -/
+theorem Renewing.same_store {s : Store} {t : List (Req × Rsp)} (h : Renewing s s t) :
+    ∀ e ∈ t, e.1.store? = some s := by
+  induction h with
+  | nil => intro e he; cases he
+  | one e0 rest _ hs _ ih =>
+    intro e he
+    rcases List.mem_cons.mp he with rfl | he
+    · exact hs
+    · exact ih e he
+  | renew e0 a rest _ hs _ ih =>
+    intro e he
+    rcases List.mem_cons.mp he with rfl | he
+    · exact hs
+    · rcases List.mem_cons.mp he with rfl | he
+      · rfl
+      · exact ih e he
 
-theorem Ext.refl {σ : Type} (s' : Store) (a : σ × List (Req × Rsp)) : Ext s' a a := ⟨[], by simp, Renewing.nil⟩
+/-- `b` continues the trace of `a` by requests to `s` in which cancelled Gets are renewed with `s'` -/
+def Ext {σ : Type} (s s' : Store) (a b : σ × List (Req × Rsp)) : Prop :=
+  ∃ ext, b.2 = a.2 ++ ext ∧ Renewing s s' ext
 
-theorem Ext.trans {σ : Type} {s' : Store} {a b c : σ × List (Req × Rsp)} (h1 : Ext s' a b) (h2 : Ext s' b c) :
-    Ext s' a c := by
+theorem Ext.refl {σ : Type} (s s' : Store) (a : σ × List (Req × Rsp)) : Ext s s' a a := ⟨[], by simp, Renewing.nil⟩
+
+theorem Ext.trans {σ : Type} {s s' : Store} {a b c : σ × List (Req × Rsp)} (h1 : Ext s s' a b) (h2 : Ext s s' b c) :
+    Ext s s' a c := by
   obtain ⟨e1, h1, r1⟩ := h1
   obtain ⟨e2, h2, r2⟩ := h2
   exact ⟨e1 ++ e2, by rw [h2, h1, List.append_assoc], r1.append r2⟩
@@ -262,13 +282,13 @@ theorem reserve_traced (s' : Store) (st : σ × List (Req × Rsp)) :
   rcases hx : x st.1 (.reserve s') with ⟨st', r⟩
   cases r <;> exact ⟨_, rfl⟩
 
-theorem reserve_ext (s' s0 : Store) (st : σ × List (Req × Rsp)) : Ext s' st (reserve K (traced x) s0 st).1 := by
-  obtain ⟨a, h⟩ := reserve_traced x s0 st
-  exact ⟨_, h, Renewing.one _ _ rfl Renewing.nil⟩
+theorem reserve_ext (s s' : Store) (st : σ × List (Req × Rsp)) : Ext s s' st (reserve K (traced x) s st).1 := by
+  obtain ⟨a, h⟩ := reserve_traced x s st
+  exact ⟨_, h, Renewing.one _ _ rfl rfl Renewing.nil⟩
 
 /-- one `send_fn(req)`: one more exchange, a cancelled Get exactly when the helper sees C5h -/
 theorem sendGet_traced (s : Store) (id off cnt : Nat) (st : σ × List (Req × Rsp)) (res : Nat) :
-    ∃ e, (sendGet K (traced x) s id off cnt st res).1.2 = st.2 ++ [e] ∧
+    ∃ e, (sendGet K (traced x) s id off cnt st res).1.2 = st.2 ++ [e] ∧ e.1.store? = some s ∧
       (match (sendGet K (traced x) s id off cnt st res).2 with
        | .ok (c, _) => (isCancelledGet e = true ↔ c = K.chunkRenew)
        | _ => isCancelledGet e = false) := by
@@ -276,27 +296,27 @@ theorem sendGet_traced (s : Store) (id off cnt : Nat) (st : σ × List (Req × R
   rcases hx : x st.1 (.get s (res % 65536) (id % 65536) (off % 256) (cnt % 256)) with ⟨st', r⟩
   cases r with
   | data nx b =>
-    refine ⟨_, rfl, ?_⟩
+    refine ⟨_, rfl, rfl, ?_⟩
     simp [isCancelledGet, K, PyIpmi.Gen.Loops11.consts]
   | err c0 =>
-    refine ⟨_, rfl, ?_⟩
+    refine ⟨_, rfl, rfl, ?_⟩
     simp [isCancelledGet, ccResCanceled, K, PyIpmi.Gen.Loops11.consts]
   | reserved _ =>
-    refine ⟨_, rfl, ?_⟩
+    refine ⟨_, rfl, rfl, ?_⟩
     simp [isCancelledGet]
 
 theorem chunkLoop_ext (s s' : Store) (id off cnt : Nat) :
-    ∀ b st res, Ext s' st (chunkLoop K (sendGet K (traced x) s id off cnt) (reserve K (traced x) s') b st res).1 := by
+    ∀ b st res, Ext s s' st (chunkLoop K (sendGet K (traced x) s id off cnt) (reserve K (traced x) s') b st res).1 := by
   intro b
   induction b with
-  | zero => intro st res; simp [chunkLoop]; exact Ext.refl _ _
+  | zero => intro st res; simp [chunkLoop]; exact Ext.refl _ _ _
   | succ r ih =>
     intro st res
     rw [chunkLoop_succ]
     by_cases hr0 : r = 0
-    · simp [hr0]; exact Ext.refl _ _
+    · simp [hr0]; exact Ext.refl _ _ _
     · simp only [if_neg hr0]
-      obtain ⟨e, he, hc⟩ := sendGet_traced x s id off cnt st res
+      obtain ⟨e, he, hst, hc⟩ := sendGet_traced x s id off cnt st res
       rcases hs : sendGet K (traced x) s id off cnt st res with ⟨st1, o⟩
       rw [hs] at he hc
       simp only at he hc
@@ -312,7 +332,7 @@ theorem chunkLoop_ext (s s' : Store) (id off cnt : Nat) :
             cases hh : isCancelledGet e with
             | false => rfl
             | true => have := hcc.mp hh; rw [c1] at this; cases this
-          exact ⟨[e], he, Renewing.one _ _ this Renewing.nil⟩
+          exact ⟨[e], he, Renewing.one _ _ this hst Renewing.nil⟩
         · simp only [if_neg c1]
           by_cases c2 : cc = K.chunkRenew
           · simp only [if_pos c2]
@@ -321,8 +341,8 @@ theorem chunkLoop_ext (s s' : Store) (id off cnt : Nat) :
             rcases hq : reserve K (traced x) s' st1 with ⟨st2, o2⟩
             rw [hq] at hra
             simp only at hra
-            have h12 : Ext s' st st2 := ⟨[e, (.reserve s', a)], by rw [hra, he]; simp,
-              Renewing.renew _ _ _ hcg Renewing.nil⟩
+            have h12 : Ext s s' st st2 := ⟨[e, (.reserve s', a)], by rw [hra, he]; simp,
+              Renewing.renew _ _ _ hcg hst Renewing.nil⟩
             cases o2 with
             | ok res' => exact Ext.trans h12 (ih _ _)
             | _ => exact h12
@@ -331,29 +351,29 @@ theorem chunkLoop_ext (s s' : Store) (id off cnt : Nat) :
               cases hh : isCancelledGet e with
               | false => rfl
               | true => exact absurd (hcc.mp hh) c2
-            have h1 : Ext s' st st1 := ⟨[e], he, Renewing.one _ _ hng Renewing.nil⟩
+            have h1 : Ext s s' st st1 := ⟨[e], he, Renewing.one _ _ hng hst Renewing.nil⟩
             by_cases c3 : cc = K.chunkRetry1 ∨ cc = K.chunkRetry2
             · simp only [if_pos c3]; exact Ext.trans h1 (ih _ _)
             · simp only [if_neg c3]; exact h1
-      | _ => exact ⟨[e], he, Renewing.one _ _ hc Renewing.nil⟩
+      | _ => exact ⟨[e], he, Renewing.one _ _ hc hst Renewing.nil⟩
 
 theorem getChunk_ext (v : Variant) (s : Store) (st : σ × List (Req × Rsp)) (res id off cnt : Nat) :
-    Ext (v.renew s) st (getChunk K v (traced x) s st res id off cnt).1 := by
+    Ext s (v.renew s) st (getChunk K v (traced x) s st res id off cnt).1 := by
   unfold getChunk
   exact chunkLoop_ext x s (v.renew s) id off cnt _ _ _
 
-theorem dataLoop_ext {τ : Type} (s' : Store) (X : XConsts) (v : Variant)
+theorem dataLoop_ext {τ : Type} (s s' : Store) (X : XConsts) (v : Variant)
     (get : τ × List (Req × Rsp) → Nat → Nat → (τ × List (Req × Rsp)) × Outcome (Nat × List Nat))
-    (hget : ∀ st off len, Ext s' st (get st off len).1) (recLen : Nat) :
-    ∀ r m st acc next last, Ext s' st (dataLoop X v get recLen r m st acc next last).1 := by
+    (hget : ∀ st off len, Ext s s' st (get st off len).1) (recLen : Nat) :
+    ∀ r m st acc next last, Ext s s' st (dataLoop X v get recLen r m st acc next last).1 := by
   intro r
   induction r with
-  | zero => intro m st acc next last; simp [dataLoop]; exact Ext.refl _ _
+  | zero => intro m st acc next last; simp [dataLoop]; exact Ext.refl _ _ _
   | succ r ih =>
     intro m st acc next last
     rw [dataLoop_succ]
     by_cases hr0 : r = 0
-    · simp [hr0]; exact Ext.refl _ _
+    · simp [hr0]; exact Ext.refl _ _ _
     · simp only [if_neg hr0]
       have hg := hget st acc.length (if acc.length + m > recLen then recLen - acc.length else m)
       rcases hgd : get st acc.length (if acc.length + m > recLen then recLen - acc.length else m) with ⟨st1, o⟩
@@ -380,7 +400,7 @@ theorem dataLoop_ext {τ : Type} (s' : Store) (X : XConsts) (v : Variant)
       | _ => exact hg
 
 theorem getSdrDataWith_ext (v : Variant) (s : Store) (st : σ × List (Req × Rsp)) (id res : Nat) :
-    Ext (v.renew s) st (getSdrDataWith K XK v (traced x) s st id res).1 := by
+    Ext s (v.renew s) st (getSdrDataWith K XK v (traced x) s st id res).1 := by
   unfold getSdrDataWith
   have hc := getChunk_ext x v s st res id 0 XK.hdrLen
   rcases hg : getChunk K v (traced x) s st res id 0 XK.hdrLen with ⟨st1, o⟩
@@ -392,17 +412,17 @@ theorem getSdrDataWith_ext (v : Variant) (s : Store) (st : σ × List (Req × Rs
     simp only
     split
     · exact hc
-    · exact Ext.trans hc (dataLoop_ext (v.renew s) XK v _ (fun st off len => getChunk_ext x v s st res _ off len) _ _ _ _ _ _ _)
+    · exact Ext.trans hc (dataLoop_ext s (v.renew s) XK v _ (fun st off len => getChunk_ext x v s st res _ off len) _ _ _ _ _ _ _)
   | _ => exact hc
 
 theorem getSdrData_ext (v : Variant) (s : Store) (st : σ × List (Req × Rsp)) (id : Nat) (res? : Option Nat) :
-    Ext (v.renew s) st (getSdrData K XK v (traced x) s st id res?).1 := by
+    Ext s (v.renew s) st (getSdrData K XK v (traced x) s st id res?).1 := by
   unfold getSdrData
   cases res? with
   | some r => exact getSdrDataWith_ext x v s st id r
   | none =>
     simp only
-    have hr := reserve_ext x (v.renew s) s st
+    have hr := reserve_ext x s (v.renew s) st
     rcases hq : reserve K (traced x) s st with ⟨st0, o⟩
     rw [hq] at hr
     simp only at hr
@@ -411,10 +431,10 @@ theorem getSdrData_ext (v : Variant) (s : Store) (st : σ × List (Req × Rsp)) 
     | _ => exact hr
 
 theorem entries_ext (v : Variant) (s : Store) :
-    ∀ fuel (st : σ × List (Req × Rsp)) res id acc, Ext (v.renew s) st (entries K XK v (traced x) s fuel st res id acc).1 := by
+    ∀ fuel (st : σ × List (Req × Rsp)) res id acc, Ext s (v.renew s) st (entries K XK v (traced x) s fuel st res id acc).1 := by
   intro fuel
   induction fuel with
-  | zero => intro st res id acc; simp [entries]; exact Ext.refl _ _
+  | zero => intro st res id acc; simp [entries]; exact Ext.refl _ _ _
   | succ f ih =>
     intro st res id acc
     rw [entries]
@@ -434,9 +454,9 @@ theorem entries_ext (v : Variant) (s : Store) :
     | _ => exact hg
 
 theorem sdrList_ext (v : Variant) (s : Store) (fuel : Nat) (st : σ × List (Req × Rsp)) :
-    Ext (v.renew s) st (sdrList K XK v (traced x) s fuel st).1 := by
+    Ext s (v.renew s) st (sdrList K XK v (traced x) s fuel st).1 := by
   unfold sdrList
-  have hr := reserve_ext x (v.renew s) s st
+  have hr := reserve_ext x s (v.renew s) st
   rcases hq : reserve K (traced x) s st with ⟨st0, o⟩
   rw [hq] at hr
   simp only at hr
